@@ -74,14 +74,49 @@ def jsonable(v):
 
 # =================================================================== stream 1: trusted deserialization
 
-def gen_env(rnd, fast=False, p_mapper=0.45):
+def gen_env(rnd, fast=False, p_mapper=0.45, reuse=None):
     """[inner..., outer]: inner classes are flat ("simple" leaves only); the outer may refer to them."""
     inners = []
     for _ in range(rnd.choice([0, 1, 1, 2])):
-        inners.append(T.gen_class(rnd, fresh("In"), simple=rnd.random() < 0.8, fast=fast and rnd.random() < 0.9,
-                                  p_mapper=p_mapper * 0.7))
-    outer = T.gen_class(rnd, fresh("K"), [c["name"] for c in inners], fast=fast, p_mapper=p_mapper)
+        # a later inner class may itself refer to the earlier (flat) ones: nesting depth 3
+        deeper = [c["name"] for c in inners] if inners and rnd.random() < 0.4 else ()
+        inners.append(T.gen_class(rnd, fresh("In"), deeper, simple=not deeper and rnd.random() < 0.8,
+                                  fast=fast and rnd.random() < 0.9, p_mapper=p_mapper * 0.7))
+    # a class nested two levels down keeps no TO_CAMELCASE / TO_LOWERCASE mapper of its own: the regular
+    # DEserializer stacks such mappers differently at depth 3 than at depth 2 (it cannot read back what the
+    # regular serializer writes there - round trip, property C08, not the subject of this check)
+    used_by_inner = {n for c in inners for n in T_refs(c)}
+    for c in inners:
+        if c["name"] in used_by_inner and c.get("mapper") in ("camel", "upper"):
+            c["mapper"] = None
+    name = fresh("K")
+    if reuse is not None:
+        # the same class NAME for a different declaration (the eligibility verdict is cached per class object)
+        if reuse and rnd.random() < 0.15:
+            name = rnd.choice(reuse)
+        else:
+            reuse.append(name)
+            del reuse[:-6]
+    outer = T.gen_class(rnd, name, [c["name"] for c in inners], fast=fast, p_mapper=p_mapper)
+    for c in inners + [outer]:
+        if len(c["fields"]) >= 2 and rnd.random() < 0.2:
+            c["split"] = rnd.randint(1, len(c["fields"]) - 1)     # written as base class + subclass
     return inners + [outer]
+
+
+def T_refs(c):
+    out = []
+
+    def go(ty):
+        if ty["t"] == "ref":
+            out.append(ty["cls"])
+        elif ty["t"] in ("array", "set"):
+            go(ty["item"])
+        elif ty["t"] == "opt":
+            go(ty["f"])
+    for fd in c["fields"]:
+        go(fd["ty"])
+    return out
 
 
 def oracle_tables_deser(env, doc):
@@ -108,12 +143,18 @@ def oracle_tables_deser(env, doc):
         sd[i] = rows
     for kind in others:
         i, src, _ = T.OTHER[kind]
-        exec("class _S(Structure):\n    f = %s\n    _required = []\n" % src, ns)
-        cls = ns["_S"]
+        exec("class _S(Structure):\n    f = %s\n    _required = []\n"
+             "class _SA(Structure):\n    f = Array[%s]\n    _required = []\n" % (src, src), ns)
+        cls, cls_a = ns["_S"], ns["_SA"]
         from typedpy import deserialize_structure
         rows = []
         for v, r in uniq:
             def run(v=v):
+                if v is None:
+                    # a null document value means "absent" for a field; as an ELEMENT of a collection of such
+                    # fields (the only place the model asks about it) it is a value like any other
+                    x = deserialize_structure(cls_a, {"f": [None]}, keep_undefined=False)
+                    return x.__dict__.get("f")[0]
                 x = deserialize_structure(cls, {"f": copy.deepcopy(v)}, keep_undefined=False)
                 return x.__dict__.get("f")
             o, _ = outcome_of(run)
@@ -274,7 +315,7 @@ def field_tags(tf, v, envd, level_nested):
                 tags.add("optional-unchecked")      # an ineligible class reached through Optional[...]
     if t == "array" and tf["item"]["t"] in ("ser", "enum", "enumlit"):
         tags.add("array-of-serializable")
-    if t in ("opt", "union") and v in ([], {}):
+    if (t in ("opt", "union") or (t == "prim" and tf["f"]["t"] == "none")) and v in ([], {}):
         tags.add("empty-container-for-optional")
     if t == "opt" and not tf["nf"] and tf["f"]["t"] == "enumlit":
         tags.add("optional-literal-enum")
@@ -377,37 +418,45 @@ def case_tags(env, doc, ku, inh=(), cname=None, top=True):
             for x in v:
                 if isinstance(x, dict):
                     tags |= case_tags(env, x, ku2, sub_inh, ty["item"]["cls"], False)
-                    if ty["t"] == "set" and not_identical_doc(envd[ty["item"]["cls"]], x):
+                    if ty["t"] == "set" and not_identical_doc(envd[ty["item"]["cls"]], x, envd):
                         # equal (==) elements whose str(), hence hash, differs: the two sets compare unequal
                         tags.add("set-of-structures-hash")
     return tags
 
 
-def not_identical_val(ty, v):
+def not_identical_val(ty, v, envd=None):
     t = ty["t"]
     if v is None:
         return True
     if t == "opt":
-        return not_identical_val(ty["f"], v)
+        return not_identical_val(ty["f"], v, envd)
     if t == "prim":
         return ty["f"]["t"] == "num" and ty["f"]["k"] == "Float" and isinstance(v, int) and not isinstance(v, bool)
+    if t == "set" and isinstance(v, list) and len({repr(x) for x in v}) > 1:
+        return True       # str() of a set follows its iteration order, which depends on the insertion order
     if t in ("array", "set") and isinstance(v, list):
-        return any(not_identical_val(ty["item"], x) for x in v)
+        return any(not_identical_val(ty["item"], x, envd) for x in v)
+    if t == "ref" and isinstance(v, dict) and envd is not None:
+        return not_identical_doc(envd[ty["cls"]], v, envd)      # nested structures print differently as well
     if t == "union":
         return isinstance(v, int) and not isinstance(v, bool) and any(
             l["t"] == "prim" and l["f"]["t"] == "num" and l["f"]["k"] == "Float" for l in ty["ls"])
     return False
 
 
-def not_identical_doc(c, d):
+def not_identical_doc(c, d, envd=None):
     """the trusted path stores something not identical to the validated value (1 for 1.0, a None attribute)"""
-    by = {fd["name"]: fd["ty"] for fd in c["fields"]}
+    keys = {}
+    for fd in c["fields"]:
+        keys.setdefault(fd["name"], fd)
+        keys.setdefault(T.own_key(c.get("mapper"), fd["name"]), fd)
+        for m in ("camel", "upper"):          # a key produced by a mapper inherited from an outer class
+            keys.setdefault(T.own_key(m, T.own_key(c.get("mapper"), fd["name"])), fd)
     for k, v in d.items():
         if v is None:
             return True
-        for fd in c["fields"]:
-            if k in (fd["name"], T.own_key(c.get("mapper"), fd["name"])) and not_identical_val(fd["ty"], v):
-                return True
+        if k in keys and not_identical_val(keys[k]["ty"], v, envd):
+            return True
     return False
 
 
@@ -422,19 +471,26 @@ RAISING = {"unsupported-mapper": "raises:ValueError", "union-without-none": "rai
            "optional-literal-enum": "raises:AttributeError", "enum-by-value": "raises:KeyError",
            "union-enum-first": "raises:KeyError",
            "array-of-serializable": "raises:(TypeError|ValueError|AttributeError)",
-           "optional-unchecked": r"raises:\w+"}
+           "optional-unchecked": r"raises:\w+",
+           # the trusted path processes ANOTHER value than the regular path: any of its failure modes may follow
+           "both-mapped-and-own-key": r"raises:\w+"}
 
 
 def primary(tags, clause):
     """The feature that explains the failing clause: a crash is explained by a feature known to crash that way,
     a silent difference by a feature known to store an unprocessed value."""
     import re
+    if clause == "serializes-differently" and "default-not-applied" in tags:
+        return "default-not-applied"      # equal by == (getattr falls back to the default), different __dict__
+    if "unsupported-mapper" in tags and "optional-unchecked" in tags and clause.startswith("raises:"):
+        # the class with the unsupported mapper is reached only through an Optional the classifier did not look into
+        return "optional-unchecked"
     for p in PRIORITY:
         if p in tags:
             if clause.startswith("raises:"):
                 if p in RAISING and re.fullmatch(RAISING[p], clause):
                     return p
-            elif p not in RAISING or p in ("array-of-serializable", "optional-unchecked"):
+            elif p not in RAISING or p in ("array-of-serializable", "optional-unchecked", "both-mapped-and-own-key"):
                 return p
     return "+".join(sorted(tags)) or "safe-fragment"
 
@@ -518,15 +574,27 @@ def emit_dcase(env, doc, ku, sd, ost, obs):
         T.emit_otable(sd), T.emit_otable(ost), E.nlit(obs["level"]), E.outcome(obs["reg"]), E.outcome(obs["tr"]))
 
 
-def eval_shards(items, ctype, fns, tag, per=150):
+def eval_shards(items, ctype, fns, tag, per=150, header=None):
     """items: Gallina case literals.  Returns {fn: [indices]} or raises RuntimeError."""
     shards = []
     for s in range(0, len(items), per):
         body = "Definition cases : list %s := %s.\n" % (ctype, E.lst(["\n " + i for i in items[s:s + per]]))
-        for fn in fns:
-            body += "Eval vm_compute in (indices_where %s cases 0).\n" % fn
         shards.append(body)
-    res = core.eval_cases(shards, tag, HEADER)
+    return eval_bodies(shards, fns, tag, per, header)
+
+
+def eval_bodies(shards, fns, tag, per, header=None):
+    """shards: Coq texts each defining `cases` (per cases each); appends the Eval commands, runs them."""
+    shards = [b + "".join("Eval vm_compute in (indices_where %s cases 0).\n" % fn for fn in fns) for b in shards]
+    res = core.eval_cases(shards, tag, header or HEADER)
+    # a coqc process killed from outside (out-of-memory killer on a loaded machine: non-zero exit, no Coq error
+    # message) says nothing about the cases: evaluate those shards again, one after the other
+    for attempt in range(2):
+        dead = [i for i, (rc, so, se) in enumerate(res) if rc != 0 and "Error" not in (so + se)]
+        if not dead:
+            break
+        for i in dead:
+            res[i] = core.eval_cases([shards[i]], tag + "r", header or HEADER)[0]
     out = {fn: [] for fn in fns}
     for si, (rc, so, se) in enumerate(res):
         vals = core.parse_eval(so)
@@ -540,9 +608,10 @@ def eval_shards(items, ctype, fns, tag, per=150):
 def stream_deser(rep, rnd, n, model_ok):
     cases = []
     tries = 0
+    reuse = []
     while len(cases) < n and tries < n * 4:
         tries += 1
-        env = gen_env(rnd)
+        env = gen_env(rnd, reuse=reuse)
         envd = {c["name"]: c for c in env}
         ku = rnd.random() < 0.2
         try:
@@ -653,7 +722,9 @@ def stream_deser(rep, rnd, n, model_ok):
 
 def emit_kcase(ctx, name, kw, cons, tr):
     c = ctx.ast(name)
-    tbl = G.match_table([fd["field"] for fd in c["fields"]], [v for _, v in kw])
+    # strings the patterns are matched against: the arguments and the declared defaults
+    tbl = G.match_table([fd["field"] for fd in c["fields"]],
+                        [v for _, v in kw] + [fd["default"] for fd in c["fields"] if fd.get("default") is not None])
     return "{| kc_tbl := %s; kc_env := env0; kc_cls := %s; kc_kw := %s; kc_cons := %s; kc_trusted := %s |}" % (
         G.emit_table(tbl), ctx.emit_classdef(name), E.lst(["(%s, %s)" % (E.pstr(k), E.pval(v)) for k, v in kw]),
         E.outcome(cons), E.outcome(tr))
@@ -712,6 +783,33 @@ def deep_scan(v, pred):
     return False
 
 
+def may_collide(r):
+    """A set / dict / list argument (reified) holding two different elements that the item field normalises to the
+    same stored value: True and 'True', an enum member and its name.  The size / uniqueness rules are then checked
+    on other elements than the stored ones (findings C01-normalised-collision / C02-normalised-collision of the
+    shared __set__ model), so what the constructor does with such an argument is not this check's subject."""
+    t = r[0]
+    if t in ("list", "tuple", "deque"):
+        elems = list(r[1])
+    elif t == "set":
+        elems = list(r[2])
+    elif t == "dict":
+        elems = [k for k, _ in r[1]]
+        if any(may_collide(v) for _, v in r[1]):
+            return True
+    elif t == "struct":
+        return any(may_collide(v) for _, v in r[2])
+    else:
+        return False
+    if any(may_collide(x) for x in elems):
+        return True
+    bools = {x[1] for x in elems if x[0] == "bool"}
+    strs = {x[1] for x in elems if x[0] == "str"}
+    if any(repr(b) in strs for b in bools):
+        return True
+    return any(x[0] == "enum" and x[2] in strs for x in elems)
+
+
 def ft_key_reason(c, real, cons_inst):
     import enum
     for n in sorted(real):
@@ -750,6 +848,7 @@ def ft_key(c, kw, cons_inst, tr_inst):
 def stream_from_trusted(rep, rnd, n, model_ok):
     ctx0 = S.Context()
     items, cases = [], []
+    collide = set()
     viol = ok_cons = 0
     per_ctx = 12
     ctxs = []
@@ -817,6 +916,9 @@ def stream_from_trusted(rep, rnd, n, model_ok):
                     rep.stat("from_trusted", "equal-by-==-but-not-identical")
             if model_ok:
                 items.append((ctx, emit_kcase(ctx, c["name"], kw, cons_o, tr_o)))
+                if any(may_collide(v) for _, v in kw):
+                    collide.add(len(items) - 1)
+                    rep.stat("from_trusted", "argument with a normalised collision (C01/C02 finding): construct not compared")
         ctxs.append(ctx)
     rep.obligation("spec-on-observed:from_trusted", viol == 0, "%d constructor-valid argument sets, %d differ" % (ok_cons, viol))
     if model_ok and items:
@@ -827,6 +929,7 @@ def stream_from_trusted(rep, rnd, n, model_ok):
         except RuntimeError as ex:
             rep.broken("correspondence:from_trusted/coq-eval", str(ex))
             return
+        r["k_cons_mismatch"] = [i for i in r["k_cons_mismatch"] if i not in collide]
         rep.obligation("correspondence:construct(Struct/Instance.v)", not r["k_cons_mismatch"],
                        "%d cases, %d mismatches" % (len(lits), len(r["k_cons_mismatch"])))
         rep.obligation("correspondence:from_trusted", not r["k_trusted_mismatch"],
@@ -919,6 +1022,8 @@ def fast_tags(env, compact, cname=None):
     tags = set()
     if cname is None and compact and len(c["fields"]) == 1:
         req = [fd["name"] for fd in c["fields"]] if c.get("required") is None else c["required"]
+        req = [r for r in req if not any(fd["name"] == r and fd.get("default") is not None for fd in c["fields"])]
+        # (a field with a default is not a required field: the class's _required list does not hold it)
         if not (c.get("additional") is False and req == [c["fields"][0]["name"]]):
             tags.add("compact-conditions")
 
@@ -1033,17 +1138,40 @@ def emit_fcase(env, sn, compact, obs):
         E.outcome(obs["reg"]))
 
 
+def fixed_fast_cases():
+    """single-field wrapper classes (the compact form applies on both paths) around a nested class, under every
+    mapper kind: the corner where the regular serializer does NOT push TO_CAMELCASE into the nested document"""
+    out = []
+    flt = {"t": "prim", "f": {"t": "num", "k": "Float", "s": "Any"}}
+    for mapper in (None, "camel", "upper", {"dict": [["the_e", ["str", "k0"]]]}):
+        for kind in ("ref", "array", "opt", "set"):
+            for compact in (True, False):
+                inner = {"name": fresh("In"), "fields": [{"name": "my_b", "ty": flt, "default": None}], "fast": True,
+                         "required": ["my_b"], "additional": None, "ignore_none": False, "mapper": None}
+                ref = {"t": "ref", "cls": inner["name"]}
+                ty = {"ref": ref, "array": {"t": "array", "item": ref}, "opt": {"t": "opt", "nf": False, "f": ref},
+                      "set": {"t": "set", "item": ref}}[kind]
+                outer = {"name": fresh("K"), "fields": [{"name": "the_e", "ty": ty, "default": None}], "fast": True,
+                         "required": ["the_e"], "additional": False, "ignore_none": False, "mapper": mapper}
+                out.append(([inner, outer], False, compact))
+    return out
+
+
 def stream_fast(rep, rnd, n, model_ok):
     items, cases, observed = [], [], []
     created = viol = 0
     tries = 0
-    while len(cases) < n and tries < 5 * n:
+    fixed = fixed_fast_cases()
+    while len(cases) < n + len(fixed) and tries < 5 * n:
         tries += 1
-        env = gen_env(rnd, fast=True, p_mapper=0.4)
+        if fixed:
+            env, sn, compact = fixed.pop()
+        else:
+            env = gen_env(rnd, fast=True, p_mapper=0.4)
+            sn = rnd.random() < 0.3
+            compact = rnd.random() < 0.3
         for c in env:          # extras are a documented limit of the fast path: none are generated
             c["default_ok"] = True
-        sn = rnd.random() < 0.3
-        compact = rnd.random() < 0.3
         try:
             obs = run_fast_case(rnd, env, sn, compact)
         except Exception as ex:  # noqa  declaration rejected
@@ -1108,10 +1236,14 @@ def stream_fast(rep, rnd, n, model_ok):
 def run(rep, tier):
     rnd = random.Random(core.seed() * 1000003 + 10)
     quick = tier == "quick"
-    proofs_ok, model_ok = core.standard_proof_obligations(rep, "C10", ["theories/Check/C10chk.vo"])
+    proofs_ok, model_ok = core.standard_proof_obligations(rep, "C10", ["theories/Check/C10chk.vo",
+                                                                       "theories/Check/C10hchk.vo"])
     stream_deser(rep, rnd, 600 if quick else 5000, model_ok)
     stream_from_trusted(rep, rnd, 240 if quick else 2400, model_ok)
     stream_fast(rep, rnd, 300 if quick else 2500, model_ok)
+    from harness import c10hist
+    c10hist.stream_fast_hist(rep, rnd, 500 if quick else 3000, (4, 2, 350) if quick else (4, 3, 2000), model_ok, fresh,
+                             eval_bodies)
     if not proofs_ok:
         from harness.props.c17 import broken_build
         broken_build(rep)
@@ -1162,6 +1294,9 @@ def replay(obj):
         bad = cons_o[0] == "ok" and (tr_o[0] != "ok" or not (cons == tr))
         print("required : equal (==)  ->", "VIOLATED" if bad else "holds")
         return 1 if bad else 0
+    if st == "fast_hist":
+        from harness import c10hist
+        return c10hist.replay(obj)
     if st == "fast":
         env, sn, compact = obj["env"], obj["serialize_none"], obj["compact"]
         rnd = random.Random(0)
